@@ -339,18 +339,33 @@ def check_case(case):
     import numpy as np
     import tea_tasting as tt
     fails = []
-    kw = dict(covariates=case["covariates"], seed=case["seed"], n_users=case["n_users"], **case["params"])
+    kw0 = dict(covariates=case["covariates"], n_users=case["n_users"], **case["params"])
+    # every documented kind of seed names the same stream as the integer: a SeedSequence (fresh per call, or ONE object
+    # reused for all calls - it must not be consumed), a fresh Generator per call
+    sk = case.get("seed_kind", "int")
+    shared = np.random.SeedSequence(case["seed"])
+
+    def mk_seed():
+        return {"int": lambda: case["seed"], "seedseq": lambda: np.random.SeedSequence(case["seed"]),
+                "seedseq-shared": lambda: shared, "generator": lambda: np.random.default_rng(case["seed"])}[sk]()
     tabs = {}
     for kind, fn in (("users", tt.make_users_data), ("sessions", tt.make_sessions_data)):
         for rt in ("arrow", "pandas", "polars"):
-            tabs[kind, rt] = table_dict(fn(return_type=rt, **kw))
-        again = table_dict(fn(return_type="arrow", **kw))
+            tabs[kind, rt] = table_dict(fn(return_type=rt, seed=mk_seed(), **kw0))
+        again = table_dict(fn(return_type="arrow", seed=mk_seed(), **kw0))
+        if sk != "int":
+            by_int = table_dict(fn(return_type="arrow", seed=case["seed"], **kw0))
+            if any(not np.array_equal(np.asarray(by_int[c]), np.asarray(tabs[kind, "arrow"][c])) for c in by_int):
+                fails.append(f"{kind} data for seed kind {sk} differs from the data of the equal integer seed")
         for rt in ("pandas", "polars"):
             if list(tabs[kind, rt]) != list(tabs[kind, "arrow"]) or any(
                     not np.array_equal(np.asarray(tabs[kind, rt][c]), np.asarray(tabs[kind, "arrow"][c])) for c in tabs[kind, "arrow"]):
                 fails.append(f"{kind} data differs between arrow and {rt}")
         if any(not np.array_equal(np.asarray(again[c]), np.asarray(tabs[kind, "arrow"][c])) for c in again):
             fails.append(f"{kind} data not reproducible for the same seed")
+    if shared.n_children_spawned != 0:
+        fails.append("the caller's SeedSequence was consumed (children spawned) by the generator")
+    kw = dict(seed=case["seed"], **kw0)
     cols = ["user", "variant", "sessions", "orders", "revenue"] + (
         ["sessions_covariate", "orders_covariate", "revenue_covariate"] if case["covariates"] else [])
     u = {k: np.asarray(v) for k, v in tabs["users", "arrow"].items()}
@@ -454,7 +469,9 @@ def oracle(ctx, deep=False):
                 ctx.count("oracle:rejected-by-_check_params")
                 params = None
         case = {"params": params, "n_users": ctx.rng.choice([10, 11, 25, 60, 200]),
-                "seed": ctx.rng.randint(0, 10**6), "covariates": ctx.rng.random() < 0.6}
+                "seed": ctx.rng.randint(0, 10**6), "covariates": ctx.rng.random() < 0.6,
+                "seed_kind": ctx.rng.choice(["int", "int", "seedseq", "seedseq-shared", "generator"])}
+        ctx.count("oracle:seed-kind:" + case["seed_kind"])
         try:
             fails = check_case(case)
         except Exception as e:
